@@ -12,8 +12,8 @@ fuzz_target!(|data: &[u8]| {
         return;
     }
     let rule = RULES[(data[0] as usize) % RULES.len()].to_string();
-    let pos = if data[1] & 1 == 0 { Pos::Field } else { Pos::Variant };
-    let layout = data[1] >> 1;
+    let pos = [Pos::Field, Pos::Variant, Pos::VariantField, Pos::Field][(data[1] & 3) as usize];
+    let layout = data[1] >> 2;
     let Ok(ident) = std::str::from_utf8(&data[2..]) else { return };
     if ident.len() > 40 || !valid_ident(ident) {
         return;
